@@ -203,6 +203,34 @@ def handle (line : String) : String :=
       match Model.resolveRecursive fs (toPath main) (listOf sps) (8 * total + 200) with
       | .ok b => "ok " ++ Model.dumpBlock b
       | .error e => "err " ++ showPyErr e
+  | "munit" :: "findlevel" :: h :: [] =>
+    match decodeText h with
+    | some v => s!"ok {Model.findLevel v}"
+    | none => "bad-op"
+  | "munit" :: "sep" :: a :: b :: [] =>
+    match decodeText a, decodeText b with
+    | some x, some y => (match Model.sepRequired x y with | .ok r => s!"ok {r}" | .error e => "err " ++ showPyErr e)
+    | _, _ => "bad-op"
+  | "munit" :: "escpos" :: h :: [] =>
+    match decodeText h with
+    | some v => "ok " ++ " ".intercalate (((Model.escapePositions (v.length + 1) 0 v).mergeSort (· ≤ ·)).eraseDups.map toString)
+    | none => "bad-op"
+  | "munit" :: "newlinepos" :: h :: m :: [] =>
+    match decodeText h, m.toInt? with
+    | some v, some k => s!"ok {Model.getNewlinePos v k}"
+    | _, _ => "bad-op"
+  | "munit" :: "comment" :: h :: styleFields =>
+    match decodeText h, parseStyle styleFields with
+    | some v, some sty => "ok " ++ showPieces (Model.formatComment sty v)
+    | _, _ => "bad-op"
+  | "munit" :: "string" :: h :: styleFields =>
+    match decodeText h, parseStyle styleFields with
+    | some v, some sty => "ok " ++ showPieces (Model.visitString sty v)
+    | _, _ => "bad-op"
+  | "munit" :: "stringident" :: h :: ind :: styleFields =>
+    match decodeText h, ind.toInt?, parseStyle styleFields with
+    | some v, some i, some sty => (match Model.stringIdent v i sty with | .ok ps => "ok " ++ showPieces ps | .error e => "err " ++ showPyErr e)
+    | _, _, _ => "bad-op"
   | ["numval", h] =>
     match decodeText h with
     | none => "bad-op"
